@@ -976,7 +976,7 @@ class FnEmitter:
             _, d, op, a, b, ty = i
             if UF_MUL and op == 'mul' and isinstance(ty, IntTy) and ty.bits == 64 and a[0] != 'int' and b[0] != 'int':
                 # sound abstraction for proofs: 64x64 multiplication as an uninterpreted function
-                return ['%s = __CPROVER_uninterpreted_mul64(%s, %s);' % (s.declare(d, ty), V(a), V(b))]
+                return ['%s = ll2c_uf_mul64(%s, %s);' % (s.declare(d, ty), V(a), V(b))]
             return ['%s = %s;' % (s.declare(d, ty), em.bin_expr(op, a, b, ty, s))]
         if k == 'icmp':
             _, d, pred, a, b = i
@@ -1348,8 +1348,10 @@ static inline void ll2c_move64(u64* d, const u64* s, u64 nbytes) { u64 n = nbyte
 #endif
 #ifdef __CPROVER__
 u64 __CPROVER_uninterpreted_mul64(u64, u64);
+/* commutative by construction: operands are ordered before the application */
+static inline u64 ll2c_uf_mul64(u64 a, u64 b) { return a <= b ? __CPROVER_uninterpreted_mul64(a, b) : __CPROVER_uninterpreted_mul64(b, a); }
 #else
-#define __CPROVER_uninterpreted_mul64(a, b) ((u64)((a) * (b)))
+#define ll2c_uf_mul64(a, b) ((u64)((a) * (b)))
 #endif
 static inline int __cxa_guard_acquire(u64* g) { return *(u8*)g == 0; }
 static inline void __cxa_guard_release(u64* g) { *(u8*)g = 1; }
